@@ -61,7 +61,11 @@ pub fn try_parse_response<const N: usize>(
         builder = builder.header(h.name, h.value);
     }
 
-    let response = builder.body(()).expect("a valid response");
+    // httparse accepts headers that the http crate refuses, such as a header
+    // name longer than 64k. That is an error in the input, not a reason to panic.
+    let response = builder
+        .body(())
+        .map_err(|e| Error::BadHeader(e.to_string()))?;
 
     Ok(Some((input_used, response)))
 }
@@ -123,7 +127,9 @@ pub fn try_parse_partial_response<const N: usize>(
         builder = builder.header(h.name, h.value);
     }
 
-    let response = builder.body(()).expect("a valid response");
+    let response = builder
+        .body(())
+        .map_err(|e| Error::BadHeader(e.to_string()))?;
 
     Ok(Some(response))
 }
@@ -186,7 +192,9 @@ pub fn try_parse_request<const N: usize>(
         builder = builder.header(h.name, h.value);
     }
 
-    let request = builder.body(()).expect("a valid response");
+    let request = builder
+        .body(())
+        .map_err(|e| Error::BadHeader(e.to_string()))?;
 
     Ok(Some((input_used, request)))
 }
